@@ -1236,41 +1236,66 @@ func mergeDispatchCheck(w *World, r *Report, rule string) {
 		fmt.Sprintf("both use len %s %d; receiveN has %d entries", op1, c1, tableLen), fmt.Sprintf("constructor builds reflect cases under len %s %d, recv uses them under len %s %d, receiveN table has %d entries: for a merge of exactly %d sources recv selects over cases that were never built (blocks forever) or indexes past the table", op1, c1, op2, c2, tableLen, c1))
 }
 
-// arrayCopyCheck: copies of an array-backed reader continue at the parent's position (every field copied).
+// arrayCopyCheck: copies of an array-backed reader continue at the parent's position. Every arrayReader constructed
+// by StreamReader.Copy or by a schema function it calls (the copy helper, a constructor it was rewritten to use) takes
+// BOTH its array and its index from an existing arrayReader.
 func arrayCopyCheck(w *World, r *Report, rule string) {
-	cp := w.Fn("schema", "arrayReader.copy")
+	copyFn := w.Fn("schema", "StreamReader.Copy")
 	arT := w.Named("schema", "arrayReader")
 	st := arT.Underlying().(*types.Struct)
-	recv := cp.Params[0]
-	n := 0
-	instrs(cp, func(in ssa.Instruction) {
-		al, ok := in.(*ssa.Alloc)
-		if !ok || namedOf(al.Type()) != arT {
+	seen := map[*ssa.Function]bool{}
+	var fns []*ssa.Function
+	var add func(fn *ssa.Function, d int)
+	add = func(fn *ssa.Function, d int) {
+		if fn == nil || seen[origin(fn)] || d > 2 || fn.Blocks == nil {
 			return
 		}
-		n++
-		set := map[string]bool{}
-		for _, ref := range *al.Referrers() {
-			if fa, ok := ref.(*ssa.FieldAddr); ok {
-				for _, rr := range *fa.Referrers() {
-					if s2, ok := rr.(*ssa.Store); ok {
-						if f, base := loadedField(s2.Val); f != nil && base == ssa.Value(recv) && sameField(f, fieldVarOfAddr(fa)) {
-							set[f.Name()] = true
+		seen[origin(fn)] = true
+		fns = append(fns, fn)
+		instrs(fn, func(in ssa.Instruction) {
+			if c, ok := in.(ssa.CallInstruction); ok {
+				if sc := staticCallee(c); sc != nil && w.inRepo(sc) && w.relPkg(fnPkg(sc).Path()) == "schema" {
+					// only what may build the copies: array helpers and constructors, not the pipe / parent machinery
+					nm := origin(sc).Name()
+					if strings.Contains(strings.ToLower(nm), "array") || nm == "copy" && sc.Signature.Recv() != nil && namedOf(sc.Signature.Recv().Type()) == arT {
+						add(sc, d+1)
+					}
+				}
+			}
+		})
+	}
+	add(copyFn, 0)
+	n := 0
+	for _, fn := range fns {
+		instrs(fn, func(in ssa.Instruction) {
+			al, ok := in.(*ssa.Alloc)
+			if !ok || namedOf(al.Type()) != arT {
+				return
+			}
+			n++
+			set := map[string]bool{}
+			for _, ref := range *al.Referrers() {
+				if fa, ok := ref.(*ssa.FieldAddr); ok {
+					for _, rr := range *fa.Referrers() {
+						if s2, ok := rr.(*ssa.Store); ok {
+							if f, base := loadedField(s2.Val); f != nil && base != ssa.Value(al) && sameField(f, fieldVarOfAddr(fa)) {
+								set[f.Name()] = true
+							}
 						}
 					}
 				}
 			}
-		}
-		var missing []string
-		for i := 0; i < st.NumFields(); i++ {
-			if !set[st.Field(i).Name()] {
-				missing = append(missing, st.Field(i).Name())
+			var missing []string
+			for i := 0; i < st.NumFields(); i++ {
+				if !set[st.Field(i).Name()] {
+					missing = append(missing, st.Field(i).Name())
+				}
 			}
-		}
-		r.Check(len(missing) == 0, rule, "arrayReader.copy copies every field of the parent", al.Pos(), "arr and index taken from the receiver", "a copy of an array-backed reader does not inherit "+strings.Join(missing, ", ")+": a partially consumed reader restarts at element 0 on every fan-out copy")
-	})
+			r.Check(len(missing) == 0, rule, fmt.Sprintf("%s: array-backed copy #%d continues at the parent's position", w.fname(origin(fn)), n), al.Pos(), "arr and index taken from an existing arrayReader", "a copy of an array-backed reader does not inherit "+strings.Join(missing, ", ")+": a partially consumed reader restarts at element 0 on every fan-out copy — in Stream mode a node that consumed a prefix of its array-backed input and returns the rest has every successor run on chunks that were already consumed")
+		})
+	}
 	if n == 0 {
-		r.Fail(rule, "arrayReader.copy copies every field of the parent", cp.Pos(), "no arrayReader literal in copy")
+		r.Fail(rule, "array-backed copies continue at the parent's position", copyFn.Pos(), "no arrayReader is built on the array arm of StreamReader.Copy")
 	}
 }
 
